@@ -93,10 +93,10 @@ func runDecoders(r *Rng, n int, st *Stats, cf *CoqFile, corpus map[string][]Seed
 	items = nil
 	for i, o := range outs {
 		c := qcases[i]
-		if o.Status == "skipped" {
+		if o.Status == "skipped" || o.Status == "starved" {
 			continue
 		}
-		status := map[string]int{"ok": 0, "panic": 1, "timeout": 2, "died": 1}[o.Status]
+		status := map[string]int{"ok": 0, "panic": 1, "timeout": 2, "blocked": 2, "died": 1}[o.Status]
 		items = append(items, fmt.Sprintf("(%s,%s,%d,%d,%s)", CBytes(c.Input), CBool(c.Ascii), c.Quote, status, CBytes(o.Out)))
 		st.Note("quote", fmt.Sprintf("%q%v%d", c.Input, c.Ascii, c.Quote), !utf8.Valid(c.Input) || len(o.Out) != len(c.Input)+2)
 		if o.Status != "ok" {
@@ -122,10 +122,10 @@ func runDecoders(r *Rng, n int, st *Stats, cf *CoqFile, corpus map[string][]Seed
 	items = nil
 	for i, o := range outs {
 		c := rcases[i]
-		if o.Status == "skipped" {
+		if o.Status == "skipped" || o.Status == "starved" {
 			continue
 		}
-		status := map[string]int{"ok": 0, "panic": 1, "timeout": 2, "died": 1}[o.Status]
+		status := map[string]int{"ok": 0, "panic": 1, "timeout": 2, "blocked": 2, "died": 1}[o.Status]
 		items = append(items, fmt.Sprintf("(%s,%d,%d)", CBytes(c.Input), status, o.OutLen))
 		st.Note("roi", string(c.Input), len(c.Input) > 1)
 		if o.Status != "ok" {
